@@ -648,6 +648,28 @@ impl TickerHandle {
         Fn("src/progress_bar.rs", "ProgressBar", "is_hidden", ret="r",
            rewrites=[Rw("R2", r"self\.state\(\)", "self.state", count="any")],
            ensures=[("C06-is-hidden", "r == self.state.draw_target.hidden()", ["C06"])]),
+        Raw("""
+// R11: #[derive(Default)] on DrawState (field-wise defaults)
+impl DrawState {
+    fn default() -> (r: Self) ensures r.lines@.len() == 0 && !r.move_cursor && r.alignment is Top
+    { DrawState { lines: Vec::new(), move_cursor: false, alignment: MultiProgressAlignment::Top } }
+}
+"""),
+        Fn(**dict(K.RL_NEW, stub=True)),
+        # C01 / C05 / C06: what a freshly built TermLike target is (nothing painted yet, clearing mode, Top alignment, visible)
+        Fn("src/draw_target.rs", "ProgressDrawTarget", "term_like", ret="r", sig_rewrites=[Rw("R10", r"Box<dyn TermLike>", "Term")],
+           ensures=[("C01-C06-fresh-visible-target",
+                     "r.kind is TermLike && !r.hidden() && (r.own() matches Some(x) && x.0 == term_like@ && x.1.0 == 0 && x.2.lines@.len() == 0 && !x.2.move_cursor && x.2.alignment is Top)"),
+                    ("C05-no-limiter", "r.limiter() is None"),
+                    ("wf", "term_like@.wf() ==> r.wf2()")]),
+        Fn("src/draw_target.rs", "ProgressDrawTarget", "term_like_with_hz", ret="r", sig_rewrites=[Rw("R10", r"Box<dyn TermLike>", "Term")],
+           rewrites=[Rw("R5", r"Option::from\(RateLimiter::new\(refresh_rate\)\)", "Some(RateLimiter::new(refresh_rate))")],
+           requires=[("rate-nonzero", "refresh_rate >= 1")],
+           ensures=[("C01-C06-fresh-visible-target",
+                     "r.kind is TermLike && !r.hidden() && (r.own() matches Some(x) && x.0 == term_like@ && x.1.0 == 0 && x.2.lines@.len() == 0 && !x.2.move_cursor && x.2.alignment is Top)"),
+                    ("C05-limiter-at-the-requested-rate",
+                     "(r.limiter() matches Some(l) && l.wf() && l.capacity == 20 && (l.interval as int - 1) * (refresh_rate as int) < 1000 && (l.interval as int) * (refresh_rate as int) >= 1000)", ["C05"]),
+                    ("wf", "term_like@.wf() ==> r.wf2()")]),
         Fn("src/draw_target.rs", "ProgressDrawTarget", "hidden", ret="r", rename="hidden_target",   # the spec fn hidden() has the name already
            ensures=[("C06-hidden-target-is-hidden", "r.kind is Hidden && r.hidden() && r.ops() == 0 && r.wf2()", ["C06"])]),
         Fn("src/draw_target.rs", "ProgressDrawTarget", "set_move_cursor",
